@@ -14,7 +14,7 @@ func init() {
 	register(&Rule{ID: "FD-01", Title: "DeleteRange classification equals the prefix/suffix/middle/no-op model for every weak ordering of min,max,first,last",
 		Props: []string{"C04", "C05"}, Floor: 1, Run: runFD01})
 	register(&Rule{ID: "FD-02", Title: "lookup bound polarity: 'not found' exactly below the lower and above the upper bound in every lookup function",
-		Props: []string{"C05", "C06"}, Floor: 4, Run: runFD02})
+		Props: []string{"C05", "C06", "C10"}, Floor: 4, Run: runFD02})
 	register(&Rule{ID: "FD-04", Title: "frame arithmetic: padding in [0,7], encoded size a multiple of 8 and >= 8; scan loops advance by it",
 		Props: []string{"C01", "C02", "C09", "C11"}, Floor: 3, Run: runFD04})
 	register(&Rule{ID: "FD-05", Title: "loop shapes: verifier read-back covers [Start,End); CopyLogs covers [first,last]",
@@ -110,6 +110,24 @@ func paramIndexOf(fn *ssa.Function, base ssa.Value) int {
 }
 
 // ---------------------------------------------------------------- FD-01
+
+// prog01 remembers, per analysed program, the argument conventions FD-01 observed (HEAD: arg-max, TAIL: arg-min).
+var prog01 map[*Prog]map[string]int64
+
+// truncationArgOffsets returns the offsets FD-01 observed, running FD-01's enumeration if it has not run yet.
+func truncationArgOffsets(p *Prog) (head, tail int64, ok bool) {
+	if prog01 == nil || prog01[p] == nil {
+		rr := newRuleRun(&Rule{ID: "FD-01"}, "quick")
+		runFD01(p, rr)
+	}
+	m := prog01[p]
+	if m == nil {
+		return 0, 0, false
+	}
+	h, ok1 := m["HEAD"]
+	t, ok2 := m["TAIL"]
+	return h, t, ok1 && ok2
+}
 
 func runFD01(p *Prog, r *RuleRun) {
 	fn := p.Func("", "WAL.DeleteRange")
@@ -231,6 +249,7 @@ func runFD01(p *Prog, r *RuleRun) {
 	orderings := map[string]bool{}
 	var bad []string
 	outcomes := map[string]int{}
+	deltas := map[string]map[int64]bool{}
 	n := enumAssignments(names, 0, 6, func(a map[string]int64) bool {
 		return a["min"] >= 1 && a["first"] <= a["last"] && (a["first"] == 0) == (a["last"] == 0)
 	}, func(a map[string]int64) {
@@ -242,9 +261,9 @@ func runFD01(p *Prog, r *RuleRun) {
 		case a["first"] == 0, a["max"] < a["first"], a["min"] > a["last"]:
 			want = "NOOP"
 		case a["min"] <= a["first"]:
-			want = fmt.Sprintf("HEAD(%d)", a["max"]+1)
+			want = "HEAD"
 		case a["max"] >= a["last"]:
-			want = fmt.Sprintf("TAIL(%d)", a["min"]-1)
+			want = "TAIL"
 		default:
 			want = "ERROR"
 		}
@@ -254,6 +273,24 @@ func runFD01(p *Prog, r *RuleRun) {
 			last := parts[len(parts)-1]
 			if last == "closed" || last == "closed?" || strings.HasPrefix(last, "err-of:") || strings.HasPrefix(last, "call:") {
 				continue // closed-check exits
+			}
+			// the helper's argument is a fixed offset from max (head) / min (tail); which offset is the helper's
+			// own convention and is checked against the helper's decisions by FD-09
+			if k, rest, ok := strings.Cut(last, "("); ok && (k == "HEAD" || k == "TAIL") {
+				var n int64
+				if _, err := fmt.Sscanf(rest, "%d)", &n); err != nil {
+					last = k + "(argument not derived from min/max)"
+				} else {
+					d := n - a["max"]
+					if k == "TAIL" {
+						d = n - a["min"]
+					}
+					if deltas[k] == nil {
+						deltas[k] = map[int64]bool{}
+					}
+					deltas[k][d] = true
+					last = k
+				}
 			}
 			got[last] = true
 		}
@@ -274,8 +311,22 @@ func runFD01(p *Prog, r *RuleRun) {
 	for k, c := range outcomes {
 		r.Stats["outcome_"+k] = c
 	}
+	for _, k := range []string{"HEAD", "TAIL"} {
+		if len(deltas[k]) != 1 && len(bad) < 6 {
+			bad = append(bad, fmt.Sprintf("the argument of the %s truncation is not one fixed offset from the range bound (offsets seen: %v)", k, deltas[k]))
+		}
+	}
+	if prog01 == nil {
+		prog01 = map[*Prog]map[string]int64{}
+	}
+	prog01[p] = map[string]int64{}
+	for k, ds := range deltas {
+		for d := range ds {
+			prog01[p][k] = d
+		}
+	}
 	r.Check(len(bad) == 0 && n > 0, funcDisplay(fn)+":classification", p.Position(fn.Pos()),
-		fmt.Sprintf("for all %d weak orderings (%d witnesses) of min,max,first,last with min>=1, first<=last, both 0 iff empty: empty/disjoint -> no-op, min<=first -> head truncation to max+1, else max>=last -> tail truncation to min-1, else error without effect", len(orderings), n),
+		fmt.Sprintf("for all %d weak orderings (%d witnesses) of min,max,first,last with min>=1, first<=last, both 0 iff empty: empty/disjoint -> no-op, min<=first -> head truncation (argument max%+d), else max>=last -> tail truncation (argument min%+d), else error without effect; the offsets are checked against the helpers' decisions by FD-09", len(orderings), n, prog01[p]["HEAD"], prog01[p]["TAIL"]),
 		"DeleteRange classifies some (min,max) against (first,last) differently from the contiguous-log model (wrong truncation kind, off-by-one argument, or a middle range not refused): "+strings.Join(bad, " | "))
 }
 
@@ -1393,7 +1444,7 @@ func runFD06(p *Prog, r *RuleRun) {
 
 func init() {
 	register(&Rule{ID: "FD-09", Title: "truncation keep/drop decisions: a segment becomes the new head only if it holds entries >= newMin; tail truncation drops exactly the segments with BaseIndex > newMax",
-		Props: []string{"C04", "C05"}, Floor: 2, Run: runFD09})
+		Props: []string{"C04", "C05", "C13", "C03"}, Floor: 2, Run: runFD09})
 }
 
 func runFD09(p *Prog, r *RuleRun) {
@@ -1482,8 +1533,16 @@ func runFD09(p *Prog, r *RuleRun) {
 			if c := x.Call.StaticCallee(); c != nil && c == p.Func("", "state.getTailInfo") {
 				return "LOOP-LEFT", true
 			}
+			if c := x.Call.StaticCallee(); c != nil && (strings.HasPrefix(c.Name(), "Prev") || strings.HasPrefix(c.Name(), "Next")) && strings.Contains(c.String(), "immutable.SortedMapIterator") {
+				return "SEG", false
+			}
 		}
 		return "", false
+	}
+	hd, td, okOff := truncationArgOffsets(p)
+	if !okOff {
+		r.Unknown("anchor:arg-offsets", p.Position(dr.Pos()), "the arguments DeleteRange hands to the truncation helpers are not fixed offsets from max / min (see FD-01)")
+		return
 	}
 	// head truncation
 	{
@@ -1493,16 +1552,18 @@ func runFD09(p *Prog, r *RuleRun) {
 		n := enumAssignments(names, 0, 3, func(a map[string]int64) bool {
 			return a["b:unsealed"] <= 1 && a["tailLast"] <= a["last"] && (a["tailLast"] == 0 || a["tailLast"] == a["last"])
 		}, func(a map[string]int64) {
-			keep := a["Max"] >= a["newMin"]
+			// the helper's argument is max+hd: entries <= max go, so a segment stays iff it holds an entry > max
+			delMax := a["newMin"] - hd
+			keep := a["Max"] > delMax
 			if a["b:unsealed"] == 1 {
-				keep = a["last"] >= a["newMin"]
+				keep = a["last"] > delMax
 			}
 			chosen, dropped := false, false
 			for _, t := range fdRun(headTxn, spec, a) {
-				if strings.HasPrefix(t, "CHOSEN") {
+				if strings.Contains(t, "CHOSEN") {
 					chosen = true
 				}
-				if strings.HasPrefix(t, "DROPPED") {
+				if strings.Contains(t, "DROPPED") {
 					dropped = true
 				}
 			}
@@ -1519,25 +1580,37 @@ func runFD09(p *Prog, r *RuleRun) {
 	}
 	// tail truncation
 	{
-		spec := &fdSpec{Inline: inlineHelpers, Symbol: symbols("newMax"), Effect: effect, MaxVisits: 1}
+		spec := &fdSpec{Inline: inlineHelpers, Symbol: symbols("newMax"), Effect: effect, MaxVisits: 1, RecordCut: true}
 		names := []string{"newMax", "Base"}
 		var bad []string
-		n := enumAssignments(names, 0, 3, nil, func(a map[string]int64) {
-			drop := a["Base"] > a["newMax"]
-			dropped := false
+		nSeg := 0
+		n := enumAssignments(names, 0, 4, func(a map[string]int64) bool { return a["newMax"]-td >= 1 }, func(a map[string]int64) {
+			// the helper's argument is min+td: entries >= min go, so a segment goes iff it starts at or above min.
+			// Every path through the loop body for such a segment must drop it (a path that skips it - an
+			// "empty tail" shortcut, say - leaves a segment the code after the loop takes for the surviving one).
+			delMin := a["newMax"] - td
+			drop := a["Base"] >= delMin
 			for _, t := range fdRun(tailTxn, spec, a) {
-				if strings.HasPrefix(t, "DROPPED") {
-					dropped = true
+				i := strings.Index(t, "SEG")
+				if i < 0 {
+					continue
 				}
-			}
-			if drop != dropped && len(bad) < 5 {
-				bad = append(bad, fmt.Sprintf("%s: model drop=%v, code dropped=%v", fmtAssign(a), drop, dropped))
+				nSeg++
+				dropped := strings.Contains(t[i:], "DROPPED")
+				if drop != dropped && len(bad) < 5 {
+					bad = append(bad, fmt.Sprintf("%s (first deleted index %d): model drop=%v, a path of the code dropped=%v [%s]", fmtAssign(a), delMin, drop, dropped, t))
+				}
 			}
 		})
 		r.Stats["tail_witnesses"] = n
+		r.Stats["tail_loop_paths"] = nSeg
+		if nSeg == 0 {
+			r.Unknown(funcDisplay(tailTxn)+":keep-or-drop", p.Position(tailTxn.Pos()), "the segment loop of the tail truncation was not recognised (no iterator step on any path)")
+			return
+		}
 		r.Check(len(bad) == 0 && n > 0, funcDisplay(tailTxn)+":keep-or-drop", p.Position(tailTxn.Pos()),
-			"tail truncation drops exactly the segments whose BaseIndex > newMax",
-			"tail truncation drops/keeps segments differently from the model (drop iff BaseIndex > newMax): "+strings.Join(bad, " | "))
+			"on every path of the loop body, tail truncation drops exactly the segments whose BaseIndex is at or above the first deleted index",
+			"tail truncation drops/keeps segments differently from the model (drop iff BaseIndex >= first deleted index, on every path): a kept segment that lies wholly inside the deleted range is never closed/deleted or is taken for the surviving tail: "+strings.Join(bad, " | "))
 	}
 }
 
